@@ -293,7 +293,7 @@ def run_obligations(vobs, prop):
                 first = re.search(r"^error.*(\n.*){0,3}", se, re.M)
                 out["undecided"].append(f"VERUS-SUBSET {unit}: assembled Verus file for {unit} does not compile / was not verified: {first.group(0) if first else vr}")
                 out.setdefault("compile_failed_units", []).append(unit)
-            consistent = (not stray) and (not compile_fail) and vr.get("errors", 0) == len(hit) and vr.get("verified", 0) >= 1
+            consistent = (not stray) and (not compile_fail) and vr.get("errors", 0) == len(hit) and (vr.get("verified", 0) + vr.get("errors", 0)) >= 1
             ids_in_unit = {o["id"] for o in all_unit_obs}
             canaries = [o for o in all_unit_obs if o["kind"] == "canary"]
             for c in canaries:
